@@ -191,6 +191,16 @@ func runC09(ctx *Ctx, c *c09Case) {
 		}
 	}
 	e1 := atomic.LoadInt64(&rig.Evals)
+	// "no control cycle during the window" must not be an artefact of a loaded machine: before concluding that
+	// regulation has stopped, give it 5 s (more than a thousand tick periods) to show one more evaluation
+	for waited := 0; e1 == e0 && !returned && waited < 100; waited++ {
+		select {
+		case res = <-done:
+			returned = true
+		case <-time.After(50 * time.Millisecond):
+		}
+		e1 = atomic.LoadInt64(&rig.Evals)
+	}
 	ctx.Eval(1)
 	continues := e1 > e0 && !returned
 	hit := 0
